@@ -27,7 +27,7 @@ ASSUMPTIONS = [
     'a blank ID in a list may or may not produce a not-found warning (both accepted)',
     'warning text is not inspected, only category and count',
 ]
-MANDATORY = ['StoryDelete:repeated-id-in-list', 'EAItemDelete:repeated-id-in-list', 'StoryDelete:partial-miss', 'EAStoryDelete:partial-miss', 'ItemDelete:partial-miss',
+MANDATORY = ['mixed-routes', 'StoryDelete:repeated-id-in-list', 'EAItemDelete:repeated-id-in-list', 'StoryDelete:partial-miss', 'EAStoryDelete:partial-miss', 'ItemDelete:partial-miss',
              'EAItemDelete:partial-miss', 'StoryInsert:duplicate-skipped',
              'EAStoryInsert:duplicate-skipped', 'EAStoryDelete:multi-id-delete',
              'EAItemDelete:multi-id-delete', 'EAStoryMove:multi-source', 'subset-enumeration',
@@ -105,17 +105,53 @@ def shard_subsets(args):
     return col
 
 
+def shard_routes(args):
+    """Directed three-step histories that mix the two documented routes - msg.merge(ro) and ro += msg -
+    on one live running order: (1) an insert through one route, (2) a change of the story set through
+    either route, (3) an insert through the other route carrying a duplicate of what step 1/2 added, a
+    story that step 2 deleted, and a new one.  Whatever the running order caches between steps must not
+    show: duplicates are skipped WITH a warning, everything else is inserted."""
+    import itertools
+    col = Collector(PROP)
+    sids = ['S0', 'S1', 'S2']
+    ro_xml = gen.ro_with_layout(sids, 'mixed', items_for={'S1': ['I0']})
+
+    def env(body, mid):
+        return B.tostring(B.envelope(body, mid))
+    first = [env(B.story_insert('RO1', 'S1', [gen.plain_story('N0')]), 2001),
+             env(B.ea_story_insert('RO1', 'S2', [gen.plain_story('N0')]), 2002),
+             env(B.story_append('RO1', [gen.plain_story('N0')]), 2003)]
+    second = [env(B.story_delete('RO1', ['S0']), 2010), env(B.ea_story_delete('RO1', ['S0']), 2011),
+              env(B.story_append('RO1', [gen.plain_story('N1')]), 2012),
+              env(B.story_replace('RO1', 'S0', [gen.plain_story('N1')]), 2013),
+              env(B.ro_replace('RO1', [gen.plain_story('S1'), gen.plain_story('N1')]), 2014)]
+    third = [env(B.story_insert('RO1', 'S1', [gen.plain_story('N0'), gen.plain_story('S0'), gen.plain_story('N2')]), 2020),
+             env(B.ea_story_insert('RO1', 'S1', [gen.plain_story('N1'), gen.plain_story('S0'), gen.plain_story('N2')]), 2021),
+             env(B.story_insert('RO1', '', [gen.plain_story('S0'), gen.plain_story('N0')]), 2022)]
+    n = 0
+    for a, b, c in itertools.product(first, second, third):
+        for ra, rb, rc in itertools.product(('merge', 'add'), repeat=3):
+            if ra == rb == rc:
+                continue
+            for ev in history.replay_history([ro_xml, a, b, c], routes={a: ra, b: rb, c: rc}):
+                record(col, ev, extra=['mixed-routes'])
+            n += 1
+    col.scopes.append(f'mixed routes: {n} three-step histories, every assignment of msg.merge(ro) / ro += msg to the steps')
+    return col
+
+
 def run(tier, seed, procs):
     quick = tier == 'quick'
     nmax = 4 if quick else 5
     tasks = [(n, lay) for n in range(1, nmax + 1) for lay in ('none', 'before', 'mixed')]
     cols = drive.pool_map(shard_subsets, tasks, procs)
+    cols += drive.pool_map(shard_routes, [None], 1)
     N, M, K = (3, 3, 2) if quick else (5, 5, 3)
     cols += drive.pool_map(drive.shard_enum_story,
-                           [(MOD, n, lay, K) for n in range(0, N + 1) for lay in ('none', 'mixed', 'anon')], procs)
+                           [(MOD, n, lay, K) for n in range(0, N + 1) for lay in ('none', 'mixed', 'anon', 'twins')], procs)
     refs = ['TGT', '', 'ZZ-unknown-story']
     cols += drive.pool_map(drive.shard_enum_item,
-                           [(MOD, m, pl, K, pos, refs) for m in range(0, M + 1) for pos in (0, 1) for pl in ('mixed', 'anon-item')], procs)
+                           [(MOD, m, pl, K, pos, refs) for m in range(0, M + 1) for pos in (0, 1) for pl in ('mixed', 'anon-item', 'twin-items')], procs)
     kw = dict(allow_no_slug=True, kinds=gen.STORY_KINDS + gen.ITEM_KINDS + gen.META_KINDS[:3], faults='some', rich=True, degenerate=True,
               min_stories=1)
     shards, per = (8, 400) if quick else (16, 15000)
